@@ -91,15 +91,17 @@ theorem C20_no_transition_appends_nothing (caps : Caps) (qc : QChart) (g : Cfg) 
   subst this
   exact ⟨st', h1, by rw [h2, List.append_nil, ring_of_le _ _ hb], by rw [h3, List.append_nil]⟩
 
-/-- for the property's class of charts (no handler returns `None` for the event) and the switches
+/-- for the property's class of charts (no handler returns `None` for the event: none answers
+`None` explicitly and every handler ends in `else: … SUPER`) and the switches
 of the current source, a handled or ignored event always yields a step, and it appends nothing -/
 theorem C20_record_iff_transition_gen (caps : Caps) (qc : QChart) (st : IState) (e : Ev)
     (rest : List Ev) (hq : st.q.q = e :: rest) (hn : ∀ s, qc.chart.react s e.sig ≠ .none)
+    (hf : ∀ s, qc.chart.fall s = false)
     (ha : ∀ S T, (offers qc.chart e.sig st.q.cur).2 ≠ .tran S T)
     (hb : st.trace.length ≤ caps.trc) :
     ∃ st', iNext caps qc Miros.Gen.cfg st = some st' ∧ st'.trace = st.trace ∧
       st'.liveTrace = st.liveTrace ∧ st'.q.cur = st.q.cur := by
-  obtain ⟨r, hd, hs, _⟩ := Miros.Props.C02.C02_no_change qc.chart st.q.cur e.sig hn ha
+  obtain ⟨r, hd, hs, _⟩ := Miros.Props.C02.C02_no_change qc.chart st.q.cur e.sig hn hf ha
   obtain ⟨st', h1, h2, h3⟩ :=
     C20_no_transition_appends_nothing caps qc Miros.Gen.cfg st e rest r hq hd ha hb
   refine ⟨st', h1, h2, h3, ?_⟩
